@@ -379,16 +379,22 @@ MANIFEST = dict(
     technique="table agreement (dispatch table x printer name table x "
               "handler literals vs the C99 <math.h> definition table), "
               "literal-stream balance per structured path, definite "
-              "assignment",
+              "assignment, agreement between a handler's replacement "
+              "expression and the Precedence visitor's dispatch table",
     text="Decides the structural necessary conditions of 'the generated C "
          "computes the value' for every expression the C89/C99 printers "
          "accept: each of 24 function classes is emitted under the name of "
          "the C99 function that computes it, the relational/logical classes "
          "emit their defining C operator, the emitted text is parenthesis-"
-         "balanced on every path, and every handler assigns its result. The "
-         "numeric value of the compiled program (precedence inside the "
-         "emitted text, literal precision, pow special cases) is not "
-         "decided: that needs a C compiler and a run.",
+         "balanced on every path, every handler assigns its result, the "
+         "interval comparisons are selected by the matching open/closed "
+         "flag, and a node printed through a replacement expression "
+         "(cot as 1/tan, an UnevaluatedExpr as its operand) binds as "
+         "tightly as the Precedence visitor reports for it. The numeric "
+         "value of the compiled program (precedence inside literal text, "
+         "integer-typed literals such as 1/((c) ? 2 : 3), literal "
+         "precision, pow special cases) is not decided: that needs a C "
+         "compiler and a run.",
     note="Trusted: the 24-row class->C99 function table.",
     ref="§14 C15 (claimed during the build phase)",
 )
